@@ -125,7 +125,7 @@ theorem partialVersion_render (v : Version) (hc : C12.canon v) (rest : List Char
       have e3 : ('A' : Char).toNat = 65 := by decide
       rw [char_le_iff, char_le_iff] at hl
       omega
-  unfold partialVersion
+  unfold partialVersion partialCore
   simp only
   rw [stripV_digit hA, dropBlanks_digit hA, component_num hA dot_not_digit]
   simp only
@@ -170,7 +170,7 @@ theorem partialVersion_none_of_head {s : List Char} (c : Char) (t : List Char) (
     (h1 : c ≠ 'v') (h2 : isBlank c = false) (h3 : isDigit c = false) (h4 : c ≠ 'x' ∧ c ≠ 'X' ∧ c ≠ '*') :
     partialVersion s = none := by
   subst hs
-  unfold partialVersion
+  unfold partialVersion partialCore
   have e1 : stripV (c :: t) = c :: t := by
     unfold stripV; split
     · rename_i u heq; simp at heq; exact absurd heq.1 h1
@@ -223,24 +223,20 @@ theorem simple_op (opText : List Char) (op : Operation) (v : Version) (hc : C12.
     · rw [hd]
       show operation ('>' :: d :: (t ++ rest)) = _
       unfold operation
+      simp only [if_true]
       split
-      · rename_i u heq; simp at heq; exact absurd heq.1 hne
-      · rename_i u heq; simp at heq; rw [← heq]; rfl
-      · rename_i u heq; simp at heq
-      · rename_i u heq; simp at heq
-      · rename_i u heq; simp at heq
-      · rename_i h1 h2 _ _ _; exact absurd rfl (h2 _)
+      · rename_i u heq; simp only [List.cons.injEq] at heq; exact absurd heq.1 hne
+      · rfl
     · rfl
     · rw [hd]
       show operation ('<' :: d :: (t ++ rest)) = _
       unfold operation
+      have h1 : ('<' : Char) ≠ '>' := by decide
+      have h2 : ('<' : Char) ≠ '=' := by decide
+      simp only [h1, h2, if_false, if_true]
       split
-      · rename_i u heq; simp at heq
-      · rename_i u heq; simp at heq
-      · rename_i u heq; simp at heq
-      · rename_i u heq; simp at heq; exact absurd heq.1 hne
-      · rename_i u heq; simp at heq; rw [← heq]; rfl
-      · rename_i _ _ _ _ h5; exact absurd rfl (h5 _)
+      · rename_i u heq; simp only [List.cons.injEq] at heq; exact absurd heq.1 hne
+      · rfl
   have hhy : hyphen (opText ++ (v.render ++ rest)) = none := by
     rcases hop with ⟨rfl, _⟩ | ⟨rfl, _⟩ | ⟨rfl, _⟩ | ⟨rfl, _⟩
     · exact hyphen_none_of_op '>' _ rfl (Or.inl rfl)
@@ -290,13 +286,7 @@ theorem simple_exact (v : Version) (hc : C12.canon v) (rest : List Char) (hr : A
       have h2 : d ≠ '=' := by intro h; subst h; revert hdig; decide
       have h3 : d ≠ '<' := by intro h; subst h; revert hdig; decide
       unfold operation
-      split
-      · rename_i u heq; simp at heq; exact absurd heq.1 h1
-      · rename_i u heq; simp at heq; exact absurd heq.1 h1
-      · rename_i u heq; simp at heq; exact absurd heq.1 h2
-      · rename_i u heq; simp at heq; exact absurd heq.1 h3
-      · rename_i u heq; simp at heq; exact absurd heq.1 h3
-      · rfl
+      simp only [h1, h2, h3, if_false]
     rw [this]
   have hpart : partialP (v.render ++ rest) = some (BoundSet.exact v, rest) := by
     unfold partialP
